@@ -120,7 +120,7 @@ def run(ctx):
         {'cap': 2, 'rnd': 0, 'progs': [[('B', [1, 2, 3]), ('P', 4), ('B', [5, 6]), ('F',)], [('Q', 3), ('I',), ('Q', 2), ('Y',)]], 'sched': [0] * 10 + [1] * 9 + [0] * 10 + [1] * 71},
         {'cap': 3, 'rnd': 1, 'progs': [[('P', 1), ('C', 2), ('E', 3), ('P', 4), ('Z',)], [('O',), ('Z',), ('Q', 2), ('O',)]], 'sched': [0] * 17 + [1] * 83},
     ]
-    n = 700 if ctx.quick else 8000
+    n = 260 if ctx.quick else 8000
     cases = fixed + [gen_case(r) for _ in range(n)]
     outs = ls_common.run_cases(exe, [line_of(c) for c in cases])
     ctx.phase('run')
